@@ -151,6 +151,7 @@ func (c *control) readDir() {
 		case 'v', 'V':
 			var p any
 			if 0 <= c.argPos {
+				c.needArg()
 				p = c.args[c.argPos]
 				c.argPos++
 			}
@@ -312,6 +313,7 @@ func (c *control) dirMoney(colon, at bool, params []any) {
 	padchar := c.getCharParam(3, params, []byte{' '})
 	var val float64
 	if 0 <= c.argPos {
+		c.needArg()
 		arg := c.args[c.argPos]
 		c.argPos++
 		if r, ok := arg.(slip.Real); ok {
@@ -525,6 +527,7 @@ func (c *control) dirCall(colon, at bool, params []any) {
 	args := make(slip.List, 4)
 	args[0] = &slip.OutputStream{Writer: c}
 	if 0 <= c.argPos {
+		c.needArg()
 		args[1] = c.args[c.argPos]
 		c.argPos++
 	}
@@ -716,6 +719,14 @@ func (c *control) dirEval(colon, at bool, params []any) {
 	c.pos += 2
 }
 
+// needArg raises when the arguments are used up, or were skipped past by a
+// ~* directive.
+func (c *control) needArg() {
+	if len(c.args) <= c.argPos {
+		slip.ErrorPanic(c.scope, 0, "no argument left for the directive at %d of %q", c.pos, c.str)
+	}
+}
+
 func (c *control) dirProc(colon, at bool, params []any) {
 	var ctrl []byte
 	if c.argPos < len(c.args) {
@@ -762,6 +773,7 @@ func (c *control) dirA(colon, at bool, params []any) {
 	if !colon && !at && len(params) == 0 { // bare ~A, the most common case
 		var arg slip.Object
 		if 0 <= c.argPos {
+			c.needArg()
 			arg = c.args[c.argPos]
 			c.argPos++
 		}
@@ -787,6 +799,7 @@ func (c *control) dirC(colon, at bool, params []any) {
 		ok  bool
 	)
 	if 0 <= c.argPos {
+		c.needArg()
 		arg, ok = c.args[c.argPos].(slip.Character)
 		c.argPos++
 	}
@@ -819,6 +832,7 @@ func (c *control) dirInt(colon, at bool, params []any, base int) {
 		neg bool
 	)
 	if 0 <= c.argPos {
+		c.needArg()
 		arg = c.args[c.argPos]
 		c.argPos++
 	}
@@ -883,6 +897,7 @@ func (c *control) dirInt(colon, at bool, params []any, base int) {
 func (c *control) getEFGarg(ff *floatFormatter) {
 	var arg slip.Object
 	if 0 <= c.argPos {
+		c.needArg()
 		arg = c.args[c.argPos]
 		c.argPos++
 	}
@@ -1181,6 +1196,10 @@ func (c *control) dirR(colon, at bool, params []any) {
 		words  []string
 		sep    string
 	)
+	if c.argPos < 0 {
+		c.argPos = 0
+	}
+	c.needArg()
 	arg := c.args[c.argPos]
 	c.argPos++
 	switch ta := arg.(type) {
@@ -1305,6 +1324,7 @@ func (c *control) dirAS(colon, at bool, params []any, p *slip.Printer) {
 		pad []byte
 	)
 	if 0 <= c.argPos {
+		c.needArg()
 		arg = c.args[c.argPos]
 		c.argPos++
 	}
@@ -1413,6 +1433,7 @@ func (c *control) dirT(colon, at bool, params []any) {
 func (c *control) dirW(colon, at bool, params []any) {
 	var arg slip.Object
 	if 0 <= c.argPos {
+		c.needArg()
 		arg = c.args[c.argPos]
 		c.argPos++
 	}
